@@ -134,13 +134,13 @@ ModelInfl(k, full) ==
         fill == IF Len(full) >= 2 THEN full[2] ELSE 97
         out == [i \in 1..(IF n = 255 THEN 0 ELSE n) |-> fill]
     IN [has |-> TRUE, inp |-> full \o DeflateTail, ok |-> n # 255, outlen |-> Len(out),
-        utf8 |-> Utf8Valid(out), out |-> out]
+        utf8 |-> Utf8Valid(out), out |-> out, full |-> TRUE]
 
 RECURSIVE Quiesce(_, _, _, _, _)
 Quiesce(rr, SS, av, rj, outs) ==
     IF ~CanStep(rr, av) THEN [r |-> rr, outs |-> outs]
     ELSE One({Quiesce(st.r, SS, av, rj,
-                      IF st.out.k \in {"msg", "fail", "frame", "badinfl", "noinfl"}
+                      IF st.out.k \in {"msg", "fail", "frame", "badinfl", "noinfl", "truncinfl"}
                       THEN Append(outs, st.out) ELSE outs) : st \in {Step(rr, SS, av, C, ModelInfl, rj)}})
 
 RECURSIVE ByteWise(_, _, _, _, _, _)
